@@ -441,6 +441,24 @@ def same_term(a, b):
 XCHECK = {'every': 0, 'n': 0, 'ms': 3000}
 
 
+def escaped_from_repo(exc):
+    """name of the repository function an exception was raised in, or
+    None if it was raised elsewhere (harness, shim, library called by the
+    harness)"""
+    import traceback
+    tb = traceback.extract_tb(exc.__traceback__)
+    if not tb:
+        return None
+    last = tb[-1]
+    for fr in reversed(tb):
+        if '/symx/' in fr.filename or '/harness/' in fr.filename:
+            return None
+        if '/cell_type_mapper/' in fr.filename:
+            return f"{fr.filename.split('/cell_type_mapper/')[-1]}:" \
+                   f"{fr.name}"
+    return None
+
+
 class Stats:
     FIELDS = ('paths', 'aborted', 'decisions', 'forks', 'queries',
               'solver_s', 'obligations', 'discharged', 'violated',
@@ -644,6 +662,19 @@ class SymCtx:
                     self.stats.aborted += 1
                     self.abort_reasons[a.why] = \
                         self.abort_reasons.get(a.why, 0) + 1
+                except (ShimGap, ReplayMismatch, Budget):
+                    raise
+                except Exception as e:
+                    # safety net: an exception raised inside repository
+                    # code that the harness body did not expect is a
+                    # finding on this path (replayed like any other), not
+                    # a crash of the harness
+                    where = escaped_from_repo(e)
+                    if where is None:
+                        raise
+                    self.exception(e, f"{type(e).__name__}: "
+                                   f"{str(e)[:120]} (raised in {where})")
+                    self._end_path('EXC ' + type(e).__name__)
             finally:
                 CUR = None
             self.stats.paths += 1
@@ -1099,7 +1130,17 @@ class ConcreteCtx:
         global CUR
         CUR = self
         try:
-            return fn(self)
+            try:
+                return fn(self)
+            except (PathAbort, ShimGap, ReplayMismatch, Budget):
+                raise
+            except Exception as e:
+                where = escaped_from_repo(e)
+                if where is None:
+                    raise
+                self.exception(e, f"{type(e).__name__}: "
+                               f"{str(e)[:120]} (raised in {where})")
+                return 'EXC ' + type(e).__name__
         finally:
             CUR = None
 
